@@ -122,7 +122,11 @@ class SizeConstraint(Constraint):
             raise error
         yield WarningEvent(error=error)
 
-        yield from consume_bytes(self.size_max - self.size_already)
+        # skip the padding; the enclosing regions are charged for it like for any other field
+        padding = self.size_max - self.size_already
+        if padding > 0:
+            yield from all_size_constraints.bytes_parsed(self.constraint_path, padding)
+        yield from consume_bytes(padding)
 
     def __repr__(self):
         return f"{type(self).__name__}({self.constraint_path}: {self.size_already}/{self.size_max})"
